@@ -10,7 +10,8 @@
  *     reg:<c>:<r>:<q>:<tok>:<t>[:<x>]  observer c sends GET Observe:0 for resource r; q = '-' or
  *                                      '+'-separated hex Uri-Query values; tok = hex token;
  *                                      t = 0 CON / 1 NON; x = extra options 'n=hex,n=hex' (n decimal;
- *                                      all options are sent in ascending order)
+ *                                      all options are sent in ascending order; the pseudo
+ *                                      option 0 makes the request a FETCH with that payload)
  *     can:<c>:<r>:<q>:<tok>:<t>[:<x>]  same with Observe:1
  *     redo:<c>                          the last request datagram of observer c arrives again
  *     chg:<r>:<n>                       the application changes resource r n times
@@ -69,6 +70,9 @@ static unsigned peer_mid[MAXOBS];
 static uint8_t last_req[MAXOBS][256];
 static size_t last_req_len[MAXOBS];
 static int origin = 'r';
+static coap_context_t *cli[MAXOBS];      /* real libcoap clients (mode c11r) */
+static coap_session_t *cls[MAXOBS];
+static int ncli = 0;
 static size_t base_out;          /* index of the first log entry of this case */
 
 void __real_coap_check_notify_lkd(coap_context_t *context);
@@ -78,7 +82,14 @@ coap_mid_t __real_coap_retransmit(coap_context_t *context, coap_queue_t *node);
 static long retx_mid = -1;       /* mid of the node coap_retransmit is working on */
 
 static int peer_of_addr(const coap_address_t *a) {
-  int c = (int)ntohs(a->addr.sin.sin_port) - 40000;
+  int c;
+  if (ncli > 0) {
+    /* real clients: their sockets have kernel-chosen ports (which may fall into 40000..40003) */
+    for (c = 0; c < ncli; c++)
+      if (cls[c] && coap_address_equals(&cls[c]->addr_info.local, a)) return c;
+    return -1;
+  }
+  c = (int)ntohs(a->addr.sin.sin_port) - 40000;
   return (c >= 0 && c < MAXOBS) ? c : -1;
 }
 
@@ -86,7 +97,9 @@ static coap_session_t *sess_of(int c) {
   coap_session_t *s, *tmp;
   if (!ep) return NULL;
   SESSIONS_ITER(ep->sessions, s, tmp) {
-    if (coap_address_equals(&s->addr_info.remote, &peer[c])) return s;
+    if (c < ncli && cls[c]) {
+      if (coap_address_equals(&s->addr_info.remote, &cls[c]->addr_info.local)) return s;
+    } else if (coap_address_equals(&s->addr_info.remote, &peer[c])) return s;
   }
   return NULL;
 }
@@ -142,6 +155,13 @@ static void on_send(size_t idx) {
   size_t n = d->len;
   if (n < 4) { printf(" X%zu:runt", idx - base_out); return; }
   unsigned tkl = p[0] & 15;
+  if (d->ctx != srv) {
+    /* a datagram of a real client: Y<k>:<c>:<T>:<code>:<mid>:<tok> */
+    printf(" Y%zu:%d:%c:%u:%u:", idx - base_out, peer_of_addr(&d->src), tn[(p[0] >> 4) & 3], p[1],
+           (p[2] << 8) | p[3]);
+    if (tkl <= 8 && 4 + tkl <= n) put_hex(p + 4, tkl);
+    return;
+  }
   printf(" X%zu:%d:%c:%c:%u:%u:", idx - base_out, peer_of_addr(&d->dst), origin,
          tn[(p[0] >> 4) & 3], p[1], (p[2] << 8) | p[3]);
   if (tkl > 8 || 4 + tkl > n) { printf("badtkl"); return; }
@@ -195,6 +215,7 @@ static void mk_resource(int i) {
   coap_resource_set_userdata(R[i].res, &R[i]);
   coap_resource_set_get_observable(R[i].res, 1);
   coap_register_request_handler(R[i].res, COAP_REQUEST_GET, on_get);
+  coap_register_request_handler(R[i].res, COAP_REQUEST_FETCH, on_get);
   coap_add_resource(srv, R[i].res);
 }
 
@@ -231,7 +252,9 @@ static void do_request(char **f, int nf, int observe) {
   n += tl;
   /* collect the options, then emit them in ascending order (stable) */
   struct { unsigned num; uint8_t v[40]; size_t len; } o[24];
-  int no = 0;
+  int no = 0, fetch = 0;
+  uint8_t payload[16];
+  size_t paylen = 0;
   o[no].num = COAP_OPTION_OBSERVE;
   o[no].v[0] = (uint8_t)observe;
   o[no].len = observe ? 1 : 0;
@@ -269,10 +292,17 @@ static void do_request(char **f, int nf, int observe) {
         size_t xl;
         uint8_t *xb = bytes_of_tok(*eq == '_' ? "-" : eq, &xl);
         if (xl > 12) xl = 12;
-        o[no].num = (unsigned)atoi(x);
-        o[no].len = xl;
-        memcpy(o[no].v, xb, xl);
-        no++;
+        if (atoi(x) == 0) {
+          /* pseudo option 0: the request is a FETCH with this payload */
+          fetch = 1;
+          paylen = xl;
+          memcpy(payload, xb, xl);
+        } else {
+          o[no].num = (unsigned)atoi(x);
+          o[no].len = xl;
+          memcpy(o[no].v, xb, xl);
+          no++;
+        }
         free(xb);
       }
       x = nx;
@@ -286,6 +316,14 @@ static void do_request(char **f, int nf, int observe) {
     }
   for (int a = 0; a < no && n < 230; a++)
     n += put_opt(b + n, &last, o[a].num, o[a].v, o[a].len);
+  if (fetch) {
+    b[1] = COAP_REQUEST_CODE_FETCH;
+    if (paylen) {
+      b[n++] = 0xff;
+      memcpy(b + n, payload, paylen);
+      n += paylen;
+    }
+  }
   free(tok);
   memcpy(last_req[c], b, n);
   last_req_len[c] = n;
@@ -496,12 +534,258 @@ static void c11(void) {
   putchar('\n');
 }
 
+/* ------------------------------------------------------------------ real libcoap clients
+ * c11r <nres> <mode0> <mode1> <mode2> <nstart> <nclients> <op> ...
+ *   creg:<c>:<r>:<q>   client c: coap_send(GET, Observe:0, Uri-Path r<r>[, Uri-Query q])
+ *   ccan:<c>:<r>:<q>   coap_cancel_observe() for that observation
+ *   cfgt:<c>:<r>:<q>   the application forgets it: its handler answers COAP_RESPONSE_FAIL (-> RST)
+ *   chg / err / del / lost / adv as in c11; io = one turn of every context
+ *   pump[:<mask>]      deliver everything that is pending, in sending order, until quiet; the
+ *                      i-th delivery of this pump is dropped when bit (i mod 16) of mask is set
+ * At the end, three times: every resource changes once more and the network runs loss-free (with
+ * time for the retransmissions) until quiet.
+ * trace: H<c>:<tok>:<obs>:<code>:<body> response handler of client c; A/Z<c>:<tok> the server
+ * added / deleted an observer (coap_persist_track_funcs callbacks); X / Y datagrams;
+ * | server dump, then O<c>:<r>:<q>:<tok>:<state a=active c=cancelled f=forgotten> per observation */
+typedef struct { int used, c, r; char q[8]; uint8_t tok[8]; size_t tl; int st; } cobs_t;
+static cobs_t CO[32];
+static int nco = 0;
+static size_t next_deliver = 0;
+
+static cobs_t *co_by_token(int c, const uint8_t *t, size_t tl) {
+  for (int i = 0; i < nco; i++)
+    if (CO[i].c == c && CO[i].tl == tl && !memcmp(CO[i].tok, t, tl)) return &CO[i];
+  return NULL;
+}
+
+static coap_response_t cl_resp(coap_session_t *s, const coap_pdu_t *sent, const coap_pdu_t *rcv,
+                               const coap_mid_t mid) {
+  (void)sent; (void)mid;
+  int c = -1;
+  for (int i = 0; i < ncli; i++) if (cls[i] == s) c = i;
+  coap_bin_const_t tk = coap_pdu_get_token(rcv);
+  size_t len = 0;
+  const uint8_t *data = NULL;
+  coap_opt_iterator_t oi;
+  coap_opt_t *o = coap_check_option(rcv, COAP_OPTION_OBSERVE, &oi);
+  printf(" H%d:", c);
+  put_hex(tk.s, tk.length);
+  if (o) printf(":%u", coap_decode_var_bytes(coap_opt_value(o), coap_opt_length(o)));
+  else printf(":-");
+  printf(":%u:", coap_pdu_get_code(rcv));
+  if (coap_get_data(rcv, &len, &data)) put_hex(data, len);
+  else putchar('-');
+  cobs_t *co = co_by_token(c, tk.s, tk.length);
+  /* an application that forgot or cancelled the observation rejects what still arrives for it
+   * (a notification then draws an RST); the answer to the Observe:1 request itself is fine */
+  if (!co) return COAP_RESPONSE_FAIL;
+  if (co->st == 'f') return COAP_RESPONSE_FAIL;
+  if (co->st == 'c' && o) return COAP_RESPONSE_FAIL;
+  return COAP_RESPONSE_OK;
+}
+
+static int on_added(coap_session_t *session, coap_subscription_t *k, coap_proto_t pr,
+                    coap_address_t *la, coap_addr_tuple_t *ai, coap_bin_const_t *raw,
+                    coap_bin_const_t *osc, void *ud) {
+  (void)pr; (void)la; (void)ai; (void)raw; (void)osc; (void)ud;
+  printf(" A%d:", peer_of_addr(&session->addr_info.remote));
+  put_hex(k->pdu->actual_token.s, k->pdu->actual_token.length);
+  return 1;
+}
+
+static int on_deleted(coap_session_t *session, coap_subscription_t *k, void *ud) {
+  (void)ud;
+  printf(" Z%d:", peer_of_addr(&session->addr_info.remote));
+  put_hex(k->pdu->actual_token.s, k->pdu->actual_token.length);
+  return 1;
+}
+
+static void all_turns(void) {
+  vn_prepare(srv);
+  for (int c = 0; c < ncli; c++) vn_prepare(cli[c]);
+}
+
+static void pump(unsigned mask) {
+  int i = 0;
+  for (int guard = 0; guard < 400 && next_deliver < vn_nout; guard++, i++) {
+    size_t k = next_deliver++;
+    if (mask & (1u << (i & 15))) { printf(" d%zu", k); continue; }
+    vn_route(k);
+  }
+}
+
+static cobs_t *co_find(int c, int r, const char *q) {
+  for (int i = 0; i < nco; i++)
+    if (CO[i].c == c && CO[i].r == r && !strcmp(CO[i].q, q) && CO[i].st == 'a') return &CO[i];
+  return NULL;
+}
+
+static void c11r(void) {
+  if (vntok < 7) { puts("ERROR c11r args"); return; }
+  nres = atoi(vtok[1]);
+  if (nres < 1 || nres > MAXRES) { puts("ERROR c11r nres"); return; }
+  g_nstart = atoi(vtok[5]);
+  ncli = 0;
+  int want = atoi(vtok[6]);
+  if (want < 1 || want > MAXOBS) { puts("ERROR c11r nclients"); return; }
+  vn_now = 1000;
+  vn_nnodes = 0;
+  vn_log_reset();
+  base_out = 0;
+  next_deliver = 0;
+  nco = 0;
+  vn_prng_seed(23);
+  vn_on_send = on_send_hook;
+  origin = 'r';
+  srv = coap_new_context(NULL);
+  ep = vn_new_server_ep(srv);
+  if (!srv || !ep) { puts("ERROR c11r setup"); return; }
+  coap_register_event_handler(srv, on_event);
+  coap_persist_track_funcs(srv, on_added, on_deleted, NULL, NULL, NULL, 1, NULL);
+  for (int i = 0; i < MAXRES; i++) {
+    memset(&R[i], 0, sizeof(R[i]));
+    R[i].id = i;
+    R[i].mode = atoi(vtok[2 + i]);
+  }
+  for (int i = 0; i < nres; i++) mk_resource(i);
+  for (int c = 0; c < want; c++) {
+    cli[c] = coap_new_context(NULL);
+    coap_context_set_block_mode(cli[c], COAP_BLOCK_USE_LIBCOAP);   /* needed by coap_cancel_observe */
+    coap_register_response_handler(cli[c], cl_resp);
+    cls[c] = vn_new_client(cli[c], &ep->bind_addr);
+    if (!cls[c]) { puts("ERROR c11r client"); return; }
+    ncli = c + 1;
+  }
+  printf("K non=%d fail=%d", COAP_OBS_MAX_NON, COAP_OBS_MAX_FAIL);
+  for (int i = 7; i <= vntok; i++) {
+    char *f[8];
+    char opcopy[128];
+    int nf;
+    if (i == vntok) {
+      /* closing phase: one more change everywhere, then a loss-free network until quiet */
+      printf(" [final");
+      for (int rep = 0; rep < 3; rep++) {
+        for (int r = 0; r < nres; r++) { R[r].state++; coap_resource_notify_observers(R[r].res, NULL); }
+        for (int round = 0; round < 10; round++) {
+          all_turns();
+          pump(0);
+          vn_advance(4000);
+        }
+      }
+      all_turns();
+      pump(0);
+      break;
+    }
+    snprintf(opcopy, sizeof(opcopy), "%s", vtok[i]);
+    nf = split(vtok[i], f, 8);
+    const char *op = f[0];
+    printf(" [%s", opcopy);
+    if (!strcmp(op, "creg") && nf >= 4) {
+      int c = atoi(f[1]), r = atoi(f[2]);
+      if (c < 0 || c >= ncli || r < 0 || r >= nres || nco >= 32 || co_find(c, r, f[3])) continue;
+      coap_pdu_t *p = coap_new_pdu(COAP_MESSAGE_CON, COAP_REQUEST_CODE_GET, cls[c]);
+      cobs_t *co = &CO[nco++];
+      memset(co, 0, sizeof(*co));
+      co->c = c; co->r = r; co->st = 'a';
+      snprintf(co->q, sizeof(co->q), "%s", f[3]);
+      coap_session_new_token(cls[c], &co->tl, co->tok);
+      coap_add_token(p, co->tl, co->tok);
+      coap_add_option(p, COAP_OPTION_OBSERVE, 0, NULL);
+      char path[8];
+      snprintf(path, sizeof(path), "r%d", r);
+      coap_add_option(p, COAP_OPTION_URI_PATH, strlen(path), (const uint8_t *)path);
+      if (strcmp(f[3], "-")) coap_add_option(p, COAP_OPTION_URI_QUERY, strlen(f[3]), (const uint8_t *)f[3]);
+      printf("=");
+      put_hex(co->tok, co->tl);
+      coap_send(cls[c], p);
+    } else if ((!strcmp(op, "ccan") || !strcmp(op, "cfgt")) && nf >= 4) {
+      int c = atoi(f[1]), r = atoi(f[2]);
+      cobs_t *co = (c >= 0 && c < ncli) ? co_find(c, r, f[3]) : NULL;
+      if (!co) { printf("=none"); continue; }
+      printf("=");
+      put_hex(co->tok, co->tl);
+      if (op[1] == 'c') {
+        coap_binary_t tk = { co->tl, co->tok };
+        if (coap_cancel_observe(cls[c], &tk, COAP_MESSAGE_CON)) co->st = 'c';
+        else printf("=failed");
+      } else {
+        co->st = 'f';
+      }
+    } else if (!strcmp(op, "chg") && nf >= 3) {
+      int r = atoi(f[1]), n = atoi(f[2]);
+      if (r >= 0 && r < nres)
+        for (int k = 0; k < n; k++) { R[r].state++; coap_resource_notify_observers(R[r].res, NULL); }
+    } else if (!strcmp(op, "io")) {
+      all_turns();
+    } else if (!strcmp(op, "pump")) {
+      pump(nf >= 2 ? (unsigned)strtoul(f[1], NULL, 0) : 0);
+    } else if (!strcmp(op, "adv") && nf >= 2) {
+      vn_advance((coap_tick_t)atol(f[1]));
+      all_turns();
+    } else if (!strcmp(op, "err") && nf >= 3) {
+      int r = atoi(f[1]);
+      if (r >= 0 && r < nres) R[r].err = atoi(f[2]);
+    } else if (!strcmp(op, "lost") && nf >= 2) {
+      int c = atoi(f[1]);
+      coap_session_t *s = NULL, *tmp;
+      if (c >= 0 && c < ncli)
+        SESSIONS_ITER(ep->sessions, s, tmp) {
+          if (coap_address_equals(&s->addr_info.remote, &cls[c]->addr_info.local)) break;
+        }
+      if (s) coap_session_disconnected(s, COAP_NACK_NOT_DELIVERABLE);
+    } else if (!strcmp(op, "del") && nf >= 2) {
+      int r = atoi(f[1]);
+      if (r >= 0 && r < nres) {
+        int o = origin;
+        origin = 'g';
+        coap_delete_resource(srv, R[r].res);
+        origin = o;
+        mk_resource(r);
+      }
+    }
+  }
+  printf(" |");
+  RESOURCES_ITER(srv->resources, r) {
+    hres_t *h = (hres_t *)coap_resource_get_userdata(r);
+    coap_subscription_t *sb;
+    int first = 1;
+    printf(" R%d=%u:", h ? h->id : -1, h ? h->state : 0);
+    LL_FOREACH(r->subscribers, sb) {
+      if (!first) putchar(',');
+      first = 0;
+      printf("%d.", peer_of_addr(&sb->session->addr_info.remote));
+      put_hex(sb->pdu->actual_token.s, sb->pdu->actual_token.length);
+    }
+    if (first) putchar('-');
+  }
+  for (int i = 0; i < nco; i++) {
+    printf(" O%d:%d:%s:", CO[i].c, CO[i].r, CO[i].q);
+    put_hex(CO[i].tok, CO[i].tl);
+    printf(":%c", CO[i].st);
+  }
+  vn_on_send = NULL;
+  for (int c = 0; c < ncli; c++) {
+    vn_unregister_client(cls[c]);
+    coap_session_release(cls[c]);
+    coap_free_context(cli[c]);
+    cls[c] = NULL;
+    cli[c] = NULL;
+  }
+  ncli = 0;
+  coap_free_context(srv);
+  srv = NULL;
+  ep = NULL;
+  vn_log_reset();
+  putchar('\n');
+}
+
 int main(void) {
   coap_startup();
   coap_set_log_level(COAP_LOG_EMERG);
   while (next_case(stdin)) {
     if (vntok == 0) { puts(""); continue; }
     if (!strcmp(vtok[0], "c11")) c11();
+    else if (!strcmp(vtok[0], "c11r")) c11r();
     else puts("ERROR unknown command");
     fflush(stdout);
   }
